@@ -117,6 +117,13 @@ theorem C05_progress (aHigher dialX dialY : Bool) (evs : List Ev) (e : Ev)
 theorem keepRule_expected : Generated.keepRule =
     [("incoming", "remoteSKI > h.localService.SKI()"), ("outgoing", "h.localService.SKI() > remoteSKI"), ("none-registered", "true")] := by decide
 
+/-- the model's `establish` is one step (decide, close the loser, register): in the code the statements from
+    keepThisConnection to registerConnection run under one mutex in both places a connection is established
+    (regenerated). Without it two simultaneous establishments both see nothing registered and the second
+    registration replaces the first - a state the model cannot reach. -/
+theorem establish_atomic_expected : Generated.establishAtomic =
+    [("ServeHTTP", "under muxConnect"), ("connectFoundService", "under muxConnect")] := by decide
+
 /-- non-vacuity: both dial, the lower SKI's connection is set up everywhere first, the favoured one wins on both sides -/
 example : let s := run (init true true true) [.establish .Y .B, .establish .Y .A, .establish .X .A, .establish .X .B, .propagate .Y .A, .propagate .Y .B]
     quiescent s = true ∧ s.regA = some .X ∧ s.regB = some .X := by decide
